@@ -450,8 +450,12 @@ def run(args):
         for path, nofail, names in violations:
             print(f"VIOLATION property={prop} replay={path}" + (" no-failing-input-found" if nofail else ""))
         return 1
-    if crashes or vacuous or n_obl == 0:
-        if n_obl == 0:
+    bounded_cases = sum(comp.get("cases", 0) for comp in bounded)
+    nothing_checked = n_obl == 0 and bounded_cases == 0
+    if any(comp.get("cases", 0) == 0 for comp in bounded):
+        nothing_checked = True          # a bounded component that explored nothing is a broken check, not a pass
+    if crashes or vacuous or nothing_checked:
+        if nothing_checked:
             print(f"NO-OBLIGATIONS property={prop}")
         return 3
     if undecided:
